@@ -72,6 +72,13 @@ FINDINGS = [
      'witness': {'doc': '%%B0%%', 'exts': ['smarty'], 'configs': {}, 'fmt': 'xhtml', 'probe_first': True,
                  'slots': [{'i': 0, 'kind': 'block', 'mode': 'atomic', 'where': 'tail', 'tag': 'p', 'ctag': 'br', 'payload': 'a -- b', 'prio': 95,
                             'alone': True, 'atomic_wrap': True, 'attr': 'title'}]}},
+    {'id': 'F-C18-5', 'property': 'C18', 'status': 'open',
+     'what': 'an AtomicString put in the TAIL OF THE ELEMENT AN INLINE PROCESSOR RETURNS loses its type (InlineProcessor.__processPlaceholders '
+             're-attaches the tail as a slice, a plain str): nested in another inline element (`*a X b*`) it is joined with the following text '
+             'and inline-parsed again when that element is visited (likewise when the block already had element children); at the top of a block later tree processors (smarty, abbr, attr_list) read it',
+     'witness': {'doc': '*a %%I0%% b*', 'exts': [], 'configs': {}, 'fmt': 'xhtml', 'probe_first': True,
+                 'slots': [{'i': 0, 'kind': 'inline', 'mode': 'atomic', 'where': 'own_tail', 'tag': 'p', 'ctag': 'kbd', 'payload': '**s** `k`', 'prio': 95,
+                            'alone': True, 'atomic_wrap': True, 'attr': 'title', 'nested': True}]}},
     {'id': 'F-C18-4', 'property': 'C18', 'status': 'open',
      'what': 'footnotes looks for its PLACE_MARKER in every text and tail without skipping AtomicString: an atomic text containing '
              'the marker is replaced by / followed by the footnote block',
@@ -253,6 +260,8 @@ def _make_probe_ext(slots, fill):
             elif w == 'child_tail':
                 c = etree.SubElement(el, 'kbd'); c.text = util.AtomicString('k')
                 g = etree.SubElement(c, 'i'); g.text = 'g'; g.tail = x
+            elif w == 'own_tail':   # the RETURNED element carries a tail of its own
+                el.text = 'k'; el.tail = x
             return el, m.start(0), m.end(0)
 
     class TreeProbe(Treeprocessor):
@@ -293,6 +302,7 @@ def gen_slot(rng, i, exts):
         where = 'child_text'; ctag = 'code'
     if where == 'text' and kind != 'inline' and mode != 'attr': ctag = 'span'
     if kind == 'inline' and ctag in ('br',) : ctag = 'span'
+    if kind == 'inline' and mode != 'attr' and rng.random() < 0.22: where = 'own_tail'   # a tail on the element the inline processor returns
     if where in ('text', 'child_text') and ctag in ('br',): ctag = 'span'
     slot = {'i': i, 'kind': kind, 'mode': mode, 'where': where, 'tag': tag, 'ctag': ctag, 'attr': rng.choice(['title', 'data-x', 'href', 'class']),
             'alone': rng.random() < 0.5, 'atomic_wrap': rng.random() < 0.5}
@@ -326,8 +336,17 @@ def gen_doc(rng, slots, exts, counters):
             parts.insert(rng.randint(0, len(parts)), m)
         elif s['kind'] == 'inline':
             m = '%%%%I%d%%%%' % s['i']
-            k = rng.randrange(9)
-            if k == 0: t = 'a %s b' % m
+            k = rng.randrange(12)
+            if k >= 9:
+                # the trigger INSIDE a construct whose text the built-in pattern wraps in an AtomicString (code span, automatic link):
+                # a probe of higher priority (backtick 190, autolink 120) has already put its placeholder there, which must still be
+                # expanded; a probe of lower priority never sees the marker (slot not reached)
+                s['ctx'] = 'code' if k < 11 else 'autolink'
+                s['prio'] = rng.choice([200, 191, 195.5, 300, 190, 185] if k < 11 else [200, 191, 185, 175.5, 165, 125, 121, 120, 95])
+            if k == 9: t = 'see `x %s y` ok' % m
+            elif k == 10: t = rng.choice(['``a ` %s``', '`%s`', '- item `%s` *e*\n- two', '*em `c %s` em*'] + ([] if 'toc' in exts else ['# H `%s`'])) % m
+            elif k == 11: t = rng.choice(['go <http://e.com/%s> now', '<https://e.com/a?b=%s>', '*em <ftp://h/%s/x> em*']) % m
+            elif k == 0: t = 'a %s b' % m
             elif k == 1: t = '*a %s b*' % m
             elif k == 2: t = '[a %s](/u "t") c' % m
             elif k == 3: t = '- x\n- y %s z\n' % m
@@ -336,6 +355,7 @@ def gen_doc(rng, slots, exts, counters):
             elif k == 6: t = '%s' % m
             elif k == 7: t = '> q %s `c` *e*\n> next' % m
             else: t = 'a **b %s** `c` &amp; %s' % (m, D.inline(rng))
+            s['nested'] = k in (1, 2, 8, 9, 10, 11) or (k == 5 and 'toc' in exts)      # the marker lies inside an inline element (em, strong, link text, code, automatic link)
             counters['inlinectx%d' % k] = counters.get('inlinectx%d' % k, 0) + 1
             parts.insert(rng.randint(0, len(parts)), t)
     if not parts: parts = [D.p_para(rng)]
@@ -397,10 +417,28 @@ def run_payload_case(case):
         # stashed must BE in the twin output verbatim - otherwise twin and real could both lose the inserted text and still agree
         if tok not in twin: missing.append(s)
         f = esc_attr if s['mode'] == 'attr' else (lambda x: x) if s['mode'] == 'stash' else esc_cdata
-        expected = expected.replace(tok, f(s['payload']))
+        if s.get('ctx') == 'autolink' and s['mode'] == 'atomic':
+            # the automatic link copies the text content of what it encloses into its href: there the inserted text is an attribute value
+            expected = _replace_by_position(expected, tok, s['payload'])
+        else:
+            expected = expected.replace(tok, f(s['payload']))
     for s in missing:
         expected += '\n<<slot %d (%s, %s): the inserted token %s is not in the output of the twin conversion: %r>>' % (s['i'], s['mode'], s['kind'], tokens[s['i']], twin[:600])
     return real, expected, tokens
+
+
+def _replace_by_position(out, tok, payload):
+    """replace each occurrence of the alphanumeric token: inside a tag (an attribute value) by the attribute escaping of the payload,
+    in character data by the text escaping.  Serializer output: a literal `<` / `>` occurs only as a tag delimiter."""
+    res = []; pos = 0
+    while True:
+        k = out.find(tok, pos)
+        if k < 0: break
+        lt, gt = out.rfind('<', 0, k), out.rfind('>', 0, k)
+        res.append(out[pos:k]); res.append(esc_attr(payload) if lt > gt else esc_cdata(payload))
+        pos = k + len(tok)
+    res.append(out[pos:])
+    return ''.join(res)
 
 
 _ATTR_BASE = r'\{\:?[ ]*([^\}\n ][^\n]*)[ ]*\}'
@@ -417,6 +455,11 @@ def known_region(case, real, expected):
     for s in case['slots']:
         if s['mode'] != 'atomic': continue
         p = s['payload']
+        # F-C18-5: atomic tail OF THE ELEMENT AN INLINE PROCESSOR RETURNS, and either the marker is nested in another inline element
+        # (the text is parsed again when that element is visited), or the host block has element children before `inline` runs (a tree probe of
+        # priority > 20 put them there: the block is then visited as a parent too), or a tree processor that runs after `inline` reads texts
+        if s['kind'] == 'inline' and s['where'] == 'own_tail' and (s.get('nested') or exts & LATE_READERS or any(t['kind'] == 'tree' and t['prio'] > 20 for t in case['slots'])):
+            return 'F-C18-5'
         # F-C18-3: atomic TAIL OF A <br> (prettify makes it a plain str) and some later tree processor is loaded
         if s['ctag'] == 'br' and s['where'] in ('tail', 'child_tail') and s['kind'] != 'inline' and exts & LATE_READERS:
             return 'F-C18-3'
@@ -702,6 +745,16 @@ def gen_order_case(rng, counters):
 
 # ----------------------------------------------------------------------------------------------------------------------
 
+def _converts_without_probe(case):
+    import markdown
+    try:
+        markdown.Markdown(extensions=list(case['exts']), extension_configs={k: dict(v) for k, v in case.get('configs', {}).items()},
+                          output_format=case.get('fmt', 'xhtml')).convert(case['doc'])
+        return True
+    except Exception:
+        return False
+
+
 def _check_payload(case):
     """None if fine, else (observed, required)"""
     real, expected, tokens = run_payload_case(case)
@@ -712,8 +765,10 @@ def _check_payload(case):
 def replay(witness):
     try:
         return _check_payload(witness) is not None
+    except RecursionError:
+        return False
     except Exception:
-        return True
+        return _converts_without_probe(witness)
 
 
 def replay_violation(v):
@@ -746,8 +801,17 @@ def search(driver, rng, n):
         except RecursionError:
             dist['skipped_exception']['RecursionError'] = dist['skipped_exception'].get('RecursionError', 0) + 1; continue
         except Exception as e:
-            # an exception is C02's business unless the probe text caused it: report only if the twin converts fine
-            k = type(e).__name__; dist['skipped_exception'][k] = dist['skipped_exception'].get(k, 0) + 1
+            # an exception is C02's business unless the probe caused it: the same document under the same extensions WITHOUT the probe
+            # (markers are then plain text) converts -> what the probe inserted did not reach the output: reported
+            k = type(e).__name__
+            if _converts_without_probe(case):
+                dist['probe_raised'] = dist.get('probe_raised', 0) + 1
+                if len(viol) < 40:
+                    viol.append({'input': case, 'config': {'extensions': exts, 'extension_configs': case['configs'], 'output_format': case['fmt']},
+                                 'observed': 'conversion with the probe extension raised %s: %s (the same document converts without the probe)' % (k, str(e)[:300]),
+                                 'required': 'the inserted text / stashed string reaches the output', 'finding': None})
+            else:
+                dist['skipped_exception'][k] = dist['skipped_exception'].get(k, 0) + 1
             continue
         for s in slots:
             if s['i'] in tokens:
